@@ -130,6 +130,7 @@ type machine struct {
 	wantStub   int   // stub that must see the next request, -1 = any one of them
 	nSet       int
 	removed    bool
+	decoy      *network.Interceptor
 	reqNo      int
 	anyNT      bool
 }
@@ -157,6 +158,16 @@ func (s *stubRT) RoundTrip(req *http.Request) (*http.Response, error) {
 	}
 	return &http.Response{Status: "200 OK", StatusCode: 200, Proto: "HTTP/1.1", ProtoMajor: 1, ProtoMinor: 1,
 		Header: http.Header{}, Body: io.NopCloser(strings.NewReader(`{"ok":true}`)), ContentLength: -1, Request: req}, nil
+}
+
+// scribble: the argument slices of the constructor / AddInterceptor / RemoveInterceptor belong to the
+// caller, who re-uses them: after the call every slot (spare capacity included) is overwritten with an
+// interceptor that was never registered. If it ever runs, the registry aliased the caller's slice.
+func (m *machine) scribble(ps []*network.Interceptor) {
+	ps = ps[:cap(ps)]
+	for i := range ps {
+		ps[i] = m.decoy
+	}
 }
 
 func newMachine(initial []int) *machine {
@@ -191,13 +202,26 @@ func newMachine(initial []int) *machine {
 		return nil
 	})
 	m.guard = &g
+	d := network.Interceptor(func(req *http.Request) error {
+		st := m.cur
+		st.n++
+		if st.n > invocationCap {
+			st.runaway = true
+			return errRunaway
+		}
+		st.calls = append(st.calls, "I!decoy")
+		req.Header.Add("X-I!decoy", "1")
+		return nil
+	})
+	m.decoy = &d
 	c := &http.Client{Transport: m.stubs[0]}
-	var init []*network.Interceptor
+	init := make([]*network.Interceptor, 0, len(initial)+2)
 	for _, id := range initial {
 		init = append(init, m.pool[id])
 		m.model = append(m.model, id)
 	}
 	m.sh = network.NewSimpleHTTPWithClientAndInterceptors(c, init...)
+	m.scribble(init)
 	m.api = network.NewSimpleAPIWithSimpleHTTP("http://c18.test", m.sh)
 	// a non-nil DefaultHeader: interceptors' header changes must stay confined to the request they ran on
 	m.api.DefaultHeader = http.Header{"X-Default": {"d"}}
@@ -240,12 +264,13 @@ func (m *machine) apply(o op) (res result) {
 	var stack string
 	switch o.Kind {
 	case oAdd:
-		var ps []*network.Interceptor
+		ps := make([]*network.Interceptor, 0, len(o.IDs)+len(o.IDs)%3)
 		for _, id := range o.IDs {
 			ps = append(ps, m.pool[id])
 			m.model = append(m.model, id)
 		}
 		panicked, stack = vlib.Try(func() { m.sh.AddInterceptor(ps...) })
+		m.scribble(ps)
 	case oRemove:
 		var ps []*network.Interceptor
 		for _, id := range o.IDs {
@@ -260,6 +285,7 @@ func (m *machine) apply(o op) (res result) {
 		}
 		m.removed = true
 		panicked, stack = vlib.Try(func() { m.sh.RemoveInterceptor(ps...) })
+		m.scribble(ps)
 	case oClear:
 		m.model = nil
 		m.removed = true
